@@ -18,6 +18,7 @@ import Hcl.Model.Lexer
 import Hcl.Model.Parser
 import Hcl.Model.ParserStmts
 import Hcl.Model.ParserStmtsSp
+import Hcl.Model.ProgramSp
 import Hcl.Model.Io
 import Hcl.Model.Errors
 import Hcl.Spec.Locate
@@ -802,6 +803,80 @@ partial def decodeErr (e : SExp) : Option Errors.ErrV :=
   | some ("FmtError", [d]) => do pure (.fmtError (← hexAtom? d))
   | _ => none
 
+/-! #### the spans of the diagnostics of `Program::new` (`Program.newSp`, Hcl/Model/ProgramSp.lean) against the real ones -/
+
+/-- the diagnostics an error value of `Program::new` consists of: kind, names and spans as `DiagSp` lists them (the names
+    of a `WireLoop` are left out: which cycle is found depends on the iteration order of hash tables, which this stream
+    does not log; `WireLoop` carries no span); `none` for a variant `Program::new` never produces -/
+partial def errLeaves : Errors.ErrV → Option (List (String × List Bytes × List (Nat × Nat)))
+  | .multiple vs => (vs.mapM errLeaves).map List.flatten
+  | .mismatchedMuxWidths o _ => some [("MismatchedMuxWidths", [], o)]
+  | .mismatchedExprWidths a _ b _ => some [("MismatchedExprWidths", [], [a, b])]
+  | .mismatchedWireWidths n _ b _ => some [("MismatchedWireWidths", [n], [b])]
+  | .mismatchedRegisterDefaultWidths bank reg _ d _ => some [("MismatchedRegisterDefaultWidths", [bank, reg], [d])]
+  | .duplicateRegister bank reg => some [("DuplicateRegister", [bank, reg], [])]
+  | .runtimeMismatchedWidths => some [("RuntimeMismatchedWidths", [], [])]
+  | .divideByZero => some [("DivideByZero", [], [])]
+  | .undeclaredWireAssigned n s _ => some [("UndeclaredWireAssigned", [n], [s])]
+  | .undeclaredWireRead n s _ => some [("UndeclaredWireRead", [n], [s])]
+  | .nonConstantWireRead n s => some [("NonConstantWireRead", [n], [s])]
+  | .unsetWire n s => some [("UnsetWire", [n], [s])]
+  | .unsetBuiltinWire n => some [("UnsetBuiltinWire", [n], [])]
+  | .unsetUndeclaredWire n => some [("UnsetUndeclaredWire", [n], [])]
+  | .unsetRegisterInputWire n s => some [("UnsetRegisterInputWire", [n], [s])]
+  | .redeclaredWire n a b => some [("RedeclaredWire", [n], [a, b])]
+  | .doubleAssignedWire n a b => some [("DoubleAssignedWire", [n], [a, b])]
+  | .doubleAssignedRegisterWire n a b => some [("DoubleAssignedRegisterWire", [n], [a, b])]
+  | .doubleDeclaredRegisterOutWire n a b => some [("DoubleDeclaredRegisterOutWire", [n], [a, b])]
+  | .doubleAssignedFixedOutWire n s _ => some [("DoubleAssignedFixedOutWire", [n], [s])]
+  | .assignedConstant n a b => some [("AssignedConstant", [n], [a, b])]
+  | .redeclaredBuiltinWire n s _ => some [("RedeclaredBuiltinWire", [n], [s])]
+  | .partialFixedInput _ f m => some [("PartialFixedInput", f ++ [[47]] ++ m, [])]
+  | .wireLoop _ => some [("WireLoop", [], [])]
+  | .invalidRegisterBankName n s => some [("InvalidRegisterBankName", [n], [s])]
+  | .invalidBitIndex s _ => some [("InvalidBitIndex", [], [s])]
+  | .nonBooleanWidth s => some [("NonBooleanWidth", [], [s])]
+  | .noBitWidth s => some [("NoBitWidth", [], [s])]
+  | .misorderedBitIndexes s => some [("MisorderedBitIndexes", [], [s])]
+  | .wireTooWide s => some [("WireTooWide", [], [s])]
+  | .noMuxDefaultOption s => some [("NoMuxDefaultOption", [], [s])]
+  | .multipleMuxDefaultOption s => some [("MultipleMuxDefaultOption", [], [s])]
+  | .unreachableOptions s => some [("UnreachableOptions", [], [s])]
+  | _ => none
+
+def utf8Bytes (s : String) : Bytes := s.toUTF8.toList.map (·.toNat)
+
+def diagSpLeaf (d : Parser.DiagSp) : String × List Bytes × List (Nat × Nat) :=
+  (d.kind.name, if d.kind == .WireLoop then [] else d.names.map utf8Bytes, d.spans)
+
+def leafKey (l : String × List Bytes × List (Nat × Nat)) : String :=
+  l.1 ++ "|" ++ " ".intercalate (l.2.1.map hexOfBytes) ++ "|" ++ " ".intercalate (l.2.2.map fun s => s!"{s.1}-{s.2}")
+
+/-- the verdict on the spans of the diagnostics of a rejected program: the text (preamble + user) is parsed by
+    `parseProgramSp`, `Program.newSp` is run on the result, and the diagnostics are compared with those of the real
+    error as multisets of (kind, names, spans).  ` diag-spans-skipped:<reason>` when the comparison does not apply. -/
+def diagSpansVerdict (fields : List SExp) (how : String) (user : Bytes) (v : Errors.ErrV) : String :=
+  if how.startsWith "synthetic" || how.startsWith "yo" || how.startsWith "run-divide" then "diag-spans-skipped:not-from-program-new" else
+  match errLeaves v with
+  | none => "diag-spans-skipped:parse-error"
+  | some theirs =>
+    match String.fromUTF8? (ByteArray.mk (user.map UInt8.ofNat).toArray) with
+    | none => "diag-spans-skipped:not-utf8"
+    | some text =>
+      if !hasField fields "flags" then "diag-spans-skipped:no-flags" else
+      if !stmtsClsKnown (field fields "cls") text.toList then "diag-spans-skipped:unclassified-char" else
+      let pre : List Char := Generated.preambleBytes.map Char.ofNat
+      match Parser.parseProgramSp (stmtsLexCls (field fields "cls")) (pre ++ text.toList) with
+      | none => "diag-spans-DIFFER:model-does-not-parse"
+      | some ss =>
+        match Program.newSp (decodeFlags (field fields "flags")) (decodeCls (field fields "cls")) {} y86FixedFunctions ss with
+        | .ok _ => "diag-spans-DIFFER:model-accepts"
+        | .error ds =>
+          let mine := sortStrings (ds.map fun d => leafKey (diagSpLeaf d))
+          let real := sortStrings (theirs.map leafKey)
+          if mine == real then "diag-spans-agree" else
+            "diag-spans-DIFFER:model=" ++ ",".intercalate mine ++ ":real=" ++ ",".intercalate real
+
 /-- `(render (how ..) (prelen N) (user xHEX) (name xHEX) (error E))`: the bytes the model of `format_for_contents` writes for
     the error value `E` against the file (real preamble + user text), in hexadecimal; `-` for none; `PANIC` where a slice
     or an index of the real code is out of range -/
@@ -812,9 +887,10 @@ def handleRender (fields : List SExp) : String :=
   | [u], [n], [e] =>
     (match hexAtom? u, hexAtom? n, decodeErr e with
      | some user, some name, some v =>
+       let how := match field fields "how" with | [.atom h] => h | _ => ""
        (match Errors.render (Io.newFromData pre user name) v with
         | .ok out => "M " ++ (if out.isEmpty then "-" else hexOfBytes out) ++ " ;; S -"
-        | .error _ => "M PANIC ;; S -")
+        | .error _ => "M PANIC ;; S -") ++ " ;; V " ++ diagSpansVerdict fields how user v
      | _, _, _ => "bad-request undecodable-render")
   | _, _, _ => "bad-request render-fields"
 
